@@ -4,6 +4,9 @@ clean tree's over an enumerated scope; the verdict listed for the mutant ('equiv
 
 Observable, table (REP tables only, every indent of the scope):  loads(dumps(objects, properties, bools, indent=k))
 Observable, FIMI:  the text written (write_concepts_dat through a real file, Fimi.dumps) and the tuples read_concepts_dat reads back
+Observable, csv (REP of bounded/csv_rep.py only):  loads(dumps(objects, properties, bools, object_header=h, bools_as_int=a), bools_as_int=a or None),
+                under the default csv.field_size_limit() and under the limit 1 (labels of at most one character); a mutant of tools.py is observed
+                through the clean Csv class with tools.write_csv_file replaced
 
 Run by hand:  /venv/bin/python -m bounded.chars_mutants      (the proof side judges the same list: python3-vt -m pyvc.mutants)
 """
@@ -62,6 +65,61 @@ def observe_table(cls, scope):
             out.append((list(r.objects), list(r.properties), [tuple(b) for b in r.bools]))
         except Exception as e:      # noqa: BLE001
             out.append(type(e).__name__)
+    return out
+
+
+def csv_scope():
+    """(objects, properties, bools, object_header, bools_as_int on dumping, bools_as_int on loading, csv.field_size_limit()) -- all in REP"""
+    import csv
+    from bounded.csv_rep import rep
+    big = csv.field_size_limit()
+    labels_o = ['a', '', 'x\ry', ' x ', 'X', 'x,y', '"', 'x\r\ny', "it's", '0']
+    labels_p = ['p', 'x\ny', 'a;b', '', 'q r ', '1', '"p"', '\r']
+    shapes = []
+    for no, np_ in ((0, 0), (0, 1), (0, 2), (1, 0), (2, 0), (1, 1), (2, 1), (1, 2), (2, 2), (3, 3)):
+        for shift in range(0, 4):
+            objects = [labels_o[(shift * 3 + i) % len(labels_o)] for i in range(no)]
+            properties = [labels_p[(shift * 3 + i) % len(labels_p)] for i in range(np_)]
+            fills = itertools.product((False, True), repeat=no * np_) if no * np_ <= 4 else [(False,) * 9, (True,) * 9, (True, False, False, False, True, False, True, True, False)]
+            for cells in fills:
+                shapes.append((objects, properties, [tuple(cells[r * np_:(r + 1) * np_]) for r in range(no)]))
+    # no property and blanks at the end of the text; ragged rows
+    shapes += [(['a', ' x '], [], [(), ()]), (['\t'], [], [()]), ([], ['p', 'q '], []), (['a', 'b'], ['p'], [(True,), ()]), (['a', 'b'], ['p', 'q'], [(True, False), (True,)]),
+               (['a', 'b'], ['p'], [(), ()])]
+    for objects, properties, bools in shapes:
+        for header in (None, 'objects', 'x,"y'):
+            for a in (False, True):
+                for mode in (a, None):
+                    if rep(objects, properties, bools, a, mode, header, big):
+                        yield objects, properties, bools, header, a, mode, big
+    small = ['', 'a', ',', '"', '\n']
+    for no, np_ in ((1, 1), (2, 1), (2, 2)):
+        for shift in range(0, 5):
+            objects = [small[(shift + i) % 5] for i in range(no)]
+            properties = [small[(shift * 2 + i + 1) % 5] for i in range(np_)]
+            for cells in itertools.product((False, True), repeat=no * np_):
+                bools = [tuple(cells[r * np_:(r + 1) * np_]) for r in range(no)]
+                for header in (None, 'h'):
+                    for a in (False, True):
+                        for mode in (a, None):
+                            assert rep(objects, properties, bools, a, mode, header, 1)
+                            yield objects, properties, bools, header, a, mode, 1
+
+
+def observe_csv(cls, scope):
+    import csv
+    out = []
+    big = csv.field_size_limit()
+    try:
+        for objects, properties, bools, header, a, mode, lim in scope:
+            csv.field_size_limit(lim)
+            try:
+                r = cls.loads(cls.dumps(list(objects), list(properties), list(bools), object_header=header, bools_as_int=a), bools_as_int=mode)
+                out.append((list(r.objects), list(r.properties), [tuple(b) for b in r.bools]))
+            except Exception as e:      # noqa: BLE001
+                out.append(type(e).__name__)
+    finally:
+        csv.field_size_limit(big)
     return out
 
 
@@ -126,7 +184,30 @@ def main(verbose=True):
                 print('%-6s %-10s differs on %5d of %5d  %s: %r -> %r' % ('ok' if ok else 'WRONG', expect, differs, total, relpath, old[:40], new[:40]))
             if not ok:
                 wrong.append((relpath, old, new, expect, found))
-    return len(mc.MUTANTS), wrong
+    # ---- the csv format
+    import concepts.tools as clean_tools
+    cscope = list(csv_scope())
+    clean_csv = observe_csv(Format['csv'], cscope)
+    assert all(not isinstance(o, str) and o == (ob, pr, bo) for o, (ob, pr, bo, *_) in zip(clean_csv, cscope)), 'the clean tree does not round-trip the csv scope'
+    for relpath, old, new, units, expect in mc.CSV_MUTANTS:
+        mod = load_mutated(relpath, old, new)
+        if relpath == mc.FCSV:
+            got = observe_csv(mod.Csv, cscope)
+        else:
+            saved = clean_tools.write_csv_file
+            clean_tools.write_csv_file = mod.write_csv_file
+            try:
+                got = observe_csv(Format['csv'], cscope)
+            finally:
+                clean_tools.write_csv_file = saved
+        differs = sum(1 for a, b in zip(got, clean_csv) if a != b)
+        found = 'breaks' if differs else 'equivalent'
+        ok = found == expect
+        if verbose:
+            print('%-6s %-10s differs on %5d of %5d  %s: %r -> %r' % ('ok' if ok else 'WRONG', expect, differs, len(cscope), relpath, old[:40], new[:40]))
+        if not ok:
+            wrong.append((relpath, old, new, expect, found))
+    return len(mc.MUTANTS) + len(mc.CSV_MUTANTS), wrong
 
 
 if __name__ == '__main__':
